@@ -722,19 +722,28 @@ func instantiate(f feature, suffix string, r *rand.Rand) (src, expr string) {
 
 // genCorpus builds n packages; every feature is used at least once (round robin) plus random
 // extras; the "select" feature (which ends in a blocking select{}) is parsed but never called.
-func genCorpus(r *rand.Rand, n int) []corpusPkg {
+func genCorpus(r *rand.Rand, n int) []corpusPkg { return genCorpusStride(r, n, 1) }
+
+// genCorpusStride gives package i the features [i*stride, (i+1)*stride) (mod the list) plus extras.
+func genCorpusStride(r *rand.Rand, n, stride int) []corpusPkg {
 	var pkgs []corpusPkg
 	nf := len(features)
 	for i := 0; i < n; i++ {
 		name := fmt.Sprintf("c%02d%s", i, randWord(r))
 		p := corpusPkg{Name: name, Path: "prog/" + name, Files: map[string]string{}}
-		picked := map[int]bool{i % nf: true, (i*7 + 3) % nf: true}
+		picked := map[int]bool{(i*7 + 3) % nf: true}
+		own := map[int]bool{}
+		for q := 0; q < stride; q++ {
+			picked[(i*stride+q)%nf] = true
+			own[(i*stride+q)%nf] = true
+		}
 		for k := 0; k < 2+r.Intn(4); k++ {
 			picked[r.Intn(nf)] = true
 		}
-		// the floating linkname lives in exactly two packages so that the clean program is large
+		// the floating linkname lives only in the packages it is assigned to by position, so
+		// that the clean program stays large
 		for fi := range picked {
-			if features[fi].floatingDirective && i%nf != fi {
+			if features[fi].floatingDirective && !own[fi] {
 				delete(picked, fi)
 			}
 		}
@@ -823,23 +832,13 @@ func Target(x int) int { return x*3 + 1 }
 func Target2(x int) int { return x*5 + 2 }
 `
 
-// badPkg has syntax errors: parsed leniently it yields BadDecl, BadStmt and BadExpr nodes. It is
-// only used for the serializer round trip (a package with syntax errors is never built).
-const badPkg = `package bad
-
-func ok() int { return 1 }
-
-func broken() {
-	x :=
-	var 1bad int
-	if { }
-	y := [  ]
+// badPkg has syntax errors: parsed leniently its files yield BadStmt, BadDecl and BadExpr nodes.
+// It is only used for the serializer round trip (a package with syntax errors is never built).
+var badPkg = map[string]string{
+	"bad/bad1.go": "package bad\n\nfunc f() int {\n\telse\n\treturn 1\n}\n",
+	"bad/bad2.go": "package bad\n\n= 3\n\nfunc g() {}\n",
+	"bad/bad3.go": "package bad\n\nfunc h() {\n\tx := [  ]\n\t_ = x\n}\n",
 }
-
-type = struct
-
-func (
-`
 
 // mainFor generates the main package calling Sum of every given package.
 func mainFor(pkgs []corpusPkg, extra string) string {
